@@ -496,6 +496,23 @@ int32_t jls_core_rd_chunk_end(struct jls_core_s * self) {
                     return JLS_ERROR_IO;
                 }
                 if (0 == jls_core_rd_chunk(self)) {
+                    // A 28-byte payload followed by its CRC is indistinguishable from
+                    // a chunk header.  If the 32 bytes before the candidate are the
+                    // header of such a chunk, then the candidate is that chunk's payload.
+                    if (pos_final >= (int64_t) (2 * sizeof(struct jls_chunk_header_s))) {
+                        struct jls_chunk_header_s hdr_prev;
+                        int64_t pos_prev = pos_final - (int64_t) sizeof(struct jls_chunk_header_s);
+                        if (jls_raw_chunk_seek(self->raw, pos_prev)) {
+                            return JLS_ERROR_IO;
+                        }
+                        if ((0 == jls_raw_rd_header(self->raw, &hdr_prev))
+                                && (hdr_prev.payload_length == (sizeof(struct jls_chunk_header_s) - sizeof(uint32_t)))) {
+                            pos_final = pos_prev;
+                            if (jls_raw_chunk_seek(self->raw, pos_final) || jls_core_rd_chunk(self)) {
+                                return JLS_ERROR_IO;
+                            }
+                        }
+                    }
                     if (jls_raw_chunk_seek(self->raw, pos_final)) {
                         return JLS_ERROR_IO;
                     }
